@@ -49,6 +49,14 @@ theorem C06_peak_subtree (val : Nat → Int) (t : Tree) (h : P8.AllOwnNonempty t
     (peakSub val t).1 ∈ t.pixels ∧ val (peakSub val t).1 = (peakSub val t).2 ∧
       ∀ p ∈ t.pixels, val p ≤ (peakSub val t).2 := P8.peakSub_spec val t h
 
+/-- **C06 (the hypotheses hold for every real dendrogram).** The forest returned by `compute` over
+an array of `n` pixels is well formed; so is everything reachable from it by prunes and loads
+(`C02_reachable_wellformed`). -/
+theorem C06_compute_wf (E : Env) (order : List Nat) (hnd : order.Nodup) (n : Nat) (hn : ∀ p ∈ order, p < n) :
+    P8.WF (compute E order) n := P30.compute_wf E order hnd n hn
+theorem C06_prune_wf (ic : Tree → Tree → Bool) (io : Tree → Bool) (f : List Tree) (n : Nat) (h : P8.WF f n) :
+    P8.WF (prune ic io f) n := P30.prune_wf ic io f n h
+
 -- non-vacuity: a three-level forest over 6 pixels is well-formed
 example : P8.WF [node 0 [4, 0] [node 2 [2] [node 1 [1] [], node 3 [3] []], node 4 [5] []]] 6 := by
   refine ⟨by decide, by decide, by decide⟩
